@@ -49,6 +49,7 @@ class Arr:
     last: object = None
     why: str = ""
     first: object = None  # what sits in entry 0 when that differs from the rule of the other entries (np.roll)
+    minn: int = 1  # the length formula n + dlen is exact for samples of at least this length (a slice [a:-b] needs n >= a + b)
 
     def __str__(self):
         lag = "-inf" if self.lag <= NINF else ("+inf" if self.lag >= INF else str(self.lag))
@@ -60,6 +61,8 @@ class Arr:
             s += f",last={self.last}"
         if self.first is not None:
             s += f",first={self.first}"
+        if self.minn > 1:
+            s += f",for n>={self.minn}"
         return s + ")"
 
 
@@ -125,7 +128,7 @@ def elementwise(*vals):
             last = a.last
         if a.first is not None:
             first = a.first
-    return Arr(clamp(lag), dlen, False, last, why, first)
+    return Arr(clamp(lag), dlen, False, last, why, first, max(a.minn for a in arrs))
 
 
 ELEMENTWISE = {
@@ -579,9 +582,14 @@ class Frame:
                            None if b.dlen is None else b.dlen - lo, False, b.last, b.why)
             hi = _const_int(hi_n)
             if lo != 0:
+                if lo > 0 and hi is not None and hi < 0 and b.dlen is not None:
+                    # a[lo:-k]: entry i is a[i + lo]; n + dlen - lo - k entries, provided the array is that long
+                    return Arr(clamp(b.lag + lo) if b.lag > NINF else NINF, b.dlen - lo + hi, False, None, b.why, None,
+                               max(b.minn, lo - hi - b.dlen))
                 return TOP
             if hi is not None and hi < 0:
-                return Arr(b.lag, None if b.dlen is None else b.dlen + hi, False, None, b.why)
+                return Arr(b.lag, None if b.dlen is None else b.dlen + hi, False, None, b.why, None,
+                           b.minn if b.dlen is None else max(b.minn, -hi - b.dlen))
             # [0:k] with k const or data-independent expression: a prefix
             hv = self.ev(hi_n)
             if isinstance(hv, Sc) and hv.dep in ("const", "len"):
@@ -641,6 +649,15 @@ class Frame:
                 a, c = av
                 if isinstance(a, Arr) and isinstance(c, Sc) and c.dep == "const":
                     return Arr(a.lag, None if a.dlen is None else a.dlen + 1, False, None, a.why)
+                return TOP
+            if short == "concatenate" and len(args) == 1 and isinstance(args[0], (ast.Tuple, ast.List)) and len(args[0].elts) == 2 and not kv:
+                # (constants, array): k constant entries in front shift every entry of the array k places to the right
+                head, tail = args[0].elts
+                tv = self.ev(tail)
+                if isinstance(head, (ast.List, ast.Tuple)) and all(isinstance(self.ev(e), Sc) and self.ev(e).dep == "const" for e in head.elts) \
+                        and isinstance(tv, Arr) and tv.dlen is not None:
+                    k_ = len(head.elts)
+                    return Arr(clamp(tv.lag - k_) if NINF < tv.lag < INF else tv.lag, tv.dlen + k_, False, None, tv.why, None, tv.minn)
                 return TOP
             if short in ("arange",):
                 if all(isinstance(v, Sc) and v.dep in ("const", "len") for v in av + kv):
@@ -782,7 +799,7 @@ def join(a, b):
     if isinstance(a, Arr) and isinstance(b, Arr):
         lag = max(a.lag, b.lag)
         return Arr(lag, a.dlen if a.dlen == b.dlen else None, a.data and b.data,
-                   a.last if a.last is not None else b.last, a.why if a.lag >= b.lag else b.why)
+                   a.last if a.last is not None else b.last, a.why if a.lag >= b.lag else b.why, None, max(a.minn, b.minn))
     if isinstance(a, Arr) and isinstance(b, Sc):
         a, b = b, a
     if isinstance(a, Sc) and isinstance(b, Arr):
